@@ -125,7 +125,8 @@ def gen_object(draw, users, pnames, first):
         o["alg"], o["len"] = "AES", draw(st.sampled_from(SPLIT_LENS))
     # seconds between the previous registration and this one: 0 = same second, <0 = clock set back
     o["dt"] = 1 if first else draw(st.sampled_from([1, 1, 1, 1, 1, 2, 3, 0, 0, 0, -2, -5]))
-    o["orphan"] = draw(st.integers(0, 13)) == 0
+    o["orphan"] = draw(st.integers(0, 13)) == 13
+    o["gone"] = draw(st.integers(0, 15)) == 15      # destroyed again after registration
     return o
 
 
@@ -160,6 +161,37 @@ def _target_value(draw, attr, tgt, ti):
     if attr == "Sensitive":
         return bool(tgt["sens"])
     raise ValueError(attr)
+
+
+def _has_value(tgt, attr):
+    if attr == "Name":
+        return bool(tgt["names"])
+    if attr == "State":
+        return tgt["t"] != "OpaqueData"
+    if attr in ("Cryptographic Algorithm", "Cryptographic Length"):
+        return "alg" in tgt
+    if attr == "Cryptographic Usage Mask":
+        return bool(tgt.get("mask"))
+    if attr == "Object Group":
+        return bool(tgt["grps"])
+    if attr == "Application Specific Information":
+        return bool(tgt["asi"])
+    if attr == "Certificate Type":
+        return tgt["t"] == "Certificate"
+    return True
+
+
+def _owner_can_locate(o, pols):
+    """Spec-level estimate used only to aim the generator: can the owner, without group
+    information, locate the object?"""
+    if o.get("orphan"):
+        return False
+    p = o["pol"]
+    if p in (None, "default"):
+        return True
+    if p in pols and pols[p].get("preset"):
+        return pols[p]["preset"].get(o["t"]) in ("ALLOW_ALL", "ALLOW_OWNER")
+    return False
 
 
 def _pool_value(draw, attr, objs, pnames):
@@ -218,26 +250,35 @@ MENU = [a for a in FILTER_ATTRS for _ in range(WEIGHTS[a])]
 
 
 @st.composite
-def gen_request(draw, users, objs, pnames):
+def gen_request(draw, users, objs, pnames, pols):
     """Filter values are biased twice: most come from one target object (so the conjunction
     has a witness), the rest from the values present anywhere in the store or absent ones; the
     requester is mostly the target's owner."""
     n = len(objs)
-    ti = draw(st.integers(0, n - 1)) if n else None
+    # objects their own owner can locate (spec-level estimate) are preferred as targets
+    visible = [i for i, o in enumerate(objs) if _owner_can_locate(o, pols)]
+    if visible and draw(st.integers(0, 9)) < 9:
+        ti = draw(st.sampled_from(visible))
+    else:
+        ti = draw(st.integers(0, n - 1)) if n else None
     tgt = objs[ti] if n else None
     who_pool = users * 2 + [STRANGER]
     if tgt is not None:
-        who_pool = [tgt["owner"]] * 8 + who_pool
+        who_pool = [tgt["owner"]] * 10 + who_pool
     who = draw(st.sampled_from(who_pool))
     groups = draw(st.sampled_from([None] * 7 + [["g1"], ["g2"], ["g1", "g2"], []]))
     v = draw(st.sampled_from([(1, 2), (1, 0), (1, 1), (1, 3), (1, 4), (1, 4), (2, 0), (2, 0)]))
     nf = draw(st.sampled_from([1, 2, 2, 2, 1, 1, 0, 3, 3, 4]))
+    witness = tgt is not None and draw(st.integers(0, 9)) < 8
+    tmenu = MENU
+    if witness:
+        tmenu = [a for a in MENU if a == "Initial Date" or _has_value(tgt, a)]
     filters = []
     for _ in range(nf):
-        attr = draw(st.sampled_from(MENU))
+        from_target = witness and draw(st.integers(0, 9)) < 9
+        attr = draw(st.sampled_from(tmenu if from_target else MENU))
         if attr == "Sensitive" and tuple(v) < (1, 4):
-            attr = "Name"                       # the Sensitive attribute exists from KMIP 1.4
-        from_target = tgt is not None and draw(st.integers(0, 9)) < 7
+            attr = "Object Type"                # the Sensitive attribute exists from KMIP 1.4
         if attr == "Initial Date":
             if any(f[0] == "Initial Date" for f in filters):
                 continue
@@ -279,9 +320,9 @@ def gen_case(draw):
     npol = draw(st.integers(1, 2))
     pols = {"q%d" % i: draw(gen_policy()) for i in range(npol)}
     pnames = [None, None, None, "default", "public", "missing"] + sorted(pols) * 3
-    n = draw(st.sampled_from([8, 6, 12, 10, 4, 5, 7, 3, 9, 11, 2, 12, 6, 8, 1, 0]))
+    n = draw(st.sampled_from([8, 6, 12, 10, 4, 5, 7, 0, 3, 9, 11, 2, 12, 6, 1, 8]))
     objs = [draw(gen_object(users, pnames, i == 0)) for i in range(n)]
-    reqs = [draw(gen_request(users, objs, pnames)) for _ in range(draw(st.integers(3, 6)))]
+    reqs = [draw(gen_request(users, objs, pnames, pols)) for _ in range(draw(st.integers(3, 6)))]
     return {"pols": pols, "objs": objs, "reqs": reqs}
 
 
@@ -393,8 +434,15 @@ def build_store(spec):
                         _put_state(cli, m["uid"], st_)
                     except AssertionError as e:
                         raise core.HarnessError("C14 store: state change failed: %s" % (e,))
+            m["gone"] = False
+            if o.get("gone") and _activatable(o, spec.get("pols", {})) and m["state"] != "ACTIVE":
+                r = cli.one({"op": "Destroy", "uid": m["uid"]}, tick=False)
+                if r["status"] != "SUCCESS":
+                    raise core.HarnessError("C14 store: Destroy failed: %r for %r" % (r, o))
+                m["gone"] = True
             model.append(m)
-        orphans = [m["uid"] for m, o in zip(model, spec.get("objs", [])) if o.get("orphan")]
+        orphans = [m["uid"] for m, o in zip(model, spec.get("objs", []))
+                   if o.get("orphan") and not m["gone"]]
         if orphans:
             srv.stop()
             con = sqlite3.connect(srv.db)
@@ -535,6 +583,8 @@ def model_sets(pols, model, who, groups, filters, flags=()):
     """(must, may): identifiers that have to be returned / that may additionally be returned."""
     must, may = set(), set()
     for m in model:
+        if m.get("gone"):
+            continue            # destroyed objects no longer exist
         p = permitted(pols, m, who, groups)
         if p is False:
             continue
@@ -820,6 +870,8 @@ def run_case(spec):
             out["classes"].append("store-types:%d" % len(ts))
             if any(o.get("orphan") for o in spec.get("objs", [])):
                 out["classes"].append("store-has-owner-less-object")
+            if any(m["gone"] for m in model):
+                out["classes"].append("store-has-destroyed-object")
             if any(o.get("dt", 1) < 0 for o in spec.get("objs", [])[1:]):
                 out["classes"].append("store-clock-set-back")
             if any(o.get("dt", 1) == 0 for o in spec.get("objs", [])[1:]):
@@ -865,7 +917,7 @@ def run(ctx):
     F.rsa_pair(1024)
     F.rsa_pair(2048)            # generated once in the parent, inherited by the forked shards
     F.obj_spec("Certificate")
-    stores = ctx.n(960, 16000)
+    stores = ctx.n(1600, 48000)
     per = stores // NSHARDS
     dicts = core.run_sharded("vlib.props.c14", "worker",
                              [(per, core.derive_seed(ctx.seed, "c14", i)) for i in range(NSHARDS)])
